@@ -17,8 +17,9 @@ full-width crop, i.e. a consecutive sub-list of the rows (`SplitView.fragmentRow
   (e) `uncompressed_universal_dither` (uncompressed.rs): a state (the error line) carried from row
       to row
 
-The lengths of the writes of the same loops are modelled in `EncLen.lean` (C10); the lemmas
-`chunks_lengths` / `fillRowD_flush_lengths` in `Proofs/EncRows.lean` connect the two models.
+The lengths of the writes of the same loops are modelled in `EncLen.lean` (C10);
+`write_sizes_match_c10` (lemmas `chunks_lengths`, `fillRowD_lengths` in `Proofs/EncRows.lean`)
+connects the two models.
 `Theorems/C14.lean` proves that (a), (b) without row index, (c) are row-group local — for every
 image and every per-unit function — and that (b) with row index, (d), (e) are never split.
 -/
